@@ -298,7 +298,7 @@ class Run:
         elif kind == "advance":
             await asyncio.sleep(op[1])
             self.executed.append(("advance", int(op[1]) // 30))
-        elif kind in ("unknown_cell", "forged_cell", "create_live", "destroy", "destroy_half"):
+        elif kind in ("unknown_cell", "forged_cell", "create_live", "destroy", "destroy_half", "twin_create"):
             await self.adversarial(i, op)
         if self.shared():
             self.nontrivial = True
@@ -542,6 +542,50 @@ class Run:
                                                                f"node {node.idx} whose other direction had already expired")
             self.nontrivial = True
             self.executed.append(("destroy_half", ekind))
+        elif kind == "twin_create":
+            # a third party that saw the plaintext create which opened circuit X's last entry replays it to the same node
+            # under an unused circuit id: that node legally opens a circuit B with the third party as neighbour (which
+            # holds no keys). It then relabels one of X's data cells to B: B must not accept it.
+            last = c["entries"][-1]
+            enode, _, ecid = last[0], last[1], last[2]
+            created_by = [fl for fl in w.net.log if fl.dst == enode.address and (parse_cell(fl.data, w.prefix) or {}).get(
+                "plaintext") and parse_cell(fl.data, w.prefix)["circuit_id"] == ecid
+                and parse_cell(fl.data, w.prefix)["message"][:1] == b"\x02"]
+            if not created_by or not c["opened"]:
+                return
+            twin = (ecid ^ 0x5A5A5A5A ^ op[3]) & 0xFFFFFFFF
+            if any(twin in t for nd in w.nodes for t in (nd.overlay.circuits, nd.overlay.relay_from_to, nd.overlay.exit_sockets)):
+                return
+            m_addr = ("6.6.7.7", 6007)      # an address no other adversarial step uses
+            w.net.inject(m_addr, enode.address, created_by[-1].data[:23] + struct.pack(">I", twin) + created_by[-1].data[27:],
+                         note="create replayed under another circuit id")
+            await w.net.settle()
+            copied = []
+
+            def relabel(fl):
+                cell = parse_cell(fl.data, w.prefix)
+                if cell is not None and not cell["plaintext"] and fl.dst == enode.address and cell["circuit_id"] == ecid \
+                        and fl.origin is not None and not copied:
+                    copied.append(fl)
+                    w.net.inject(m_addr, enode.address, fl.data[:23] + struct.pack(">I", twin) + fl.data[27:],
+                                 note="cell of X relabelled to the twin circuit")
+                return None
+            prev_hook, w.net.on_send = w.net.on_send, relabel
+            try:
+                await self.send_and_check(c, 7000 + i)
+            finally:
+                w.net.on_send = prev_hook
+            await w.net.settle()
+            tsock = enode.overlay.exit_sockets.get(twin)
+            leaked = [] if tsock is None else [d for t in (tsock.transport_ipv4, tsock.transport_ipv6) if t is not None
+                                               for (d, a) in t.sent]
+            if tsock is not None and (tsock.enabled or leaked):
+                self.fail("J1", "twin_create:exit", f"a data cell of circuit {c['n']}, relabelled by a party without any keys to "
+                                                    f"a circuit that the same exit node opened from a replayed create, was "
+                                                    f"accepted there (outside socket opened: {tsock.enabled}, emitted "
+                                                    f"{[x[:16] for x in leaked]}): two circuits share session keys")
+            self.nontrivial = self.nontrivial or bool(copied)
+            self.executed.append(("twin_create", "joined" if tsock is not None else "refused", bool(copied)))
         elif kind == "create_live":
             from ipv8.messaging.anonymization.payload import CreatePayload
             sender = outsider if op[3] % 2 == 0 or adjacent is None else adjacent
@@ -800,6 +844,7 @@ def _strategy(max_ops: int):
         st.tuples(st.just("forged_cell"), i, i, i).map(list),
         st.tuples(st.just("create_live"), i, i, i).map(list),
         st.tuples(st.just("create_live"), i, i, i).map(list),
+        st.tuples(st.just("twin_create"), i, i, i).map(list),
         st.tuples(st.just("destroy"), i, i, i, i).map(list),
         st.tuples(st.just("destroy"), i, i, i, i).map(list),
         st.tuples(st.just("destroy_half"), i, i, i).map(list),
@@ -829,6 +874,8 @@ def _grid_cases() -> list:
         for e in range(2 * hops):
             out.append({"nodes": 5, "stack": None, "ops": [["open", 1, hops - 1, 3], ["open", 2, 1, 6], ["send", 0, 1],
                                                             ["destroy_half", 0, e, e]]})
+        out.append({"nodes": 5, "stack": None, "ops": [["open", 1, hops - 1, 3], ["open", 2, 1, 6], ["send", 0, 1], ["send", 1, 2],
+                                                        ["twin_create", 0, 0, 1], ["twin_create", 1, 0, 2], ["send", 0, 3]]})
         for variant in [*range(10), 64, 65, 128, 129, 130, 131]:
             out.append({"nodes": 5, "stack": None, "ops": [["open", 1, 1, 3], ["open_under_fire", 2, hops - 1, 5, variant],
                                                             ["send", 0, 1], ["send", 1, 2]]})
